@@ -103,8 +103,10 @@ PROPS = {
                              'A-acyclic: dependencies are structurally nested (no cycles)'],
                 design_ref='7/C11'),
     'C14': dict(functions=[f'{TC}.run', f'{PR}.wait', f'{SR}.wait', f'{PR}.cancel', f'{PR}.stop', f'{SR}.cancel', f'{SR}.stop',
-                           f'{PE}.cancel', f'{PE}.stop'],
-                interrupts={f'{TC}.run': 2, f'{PR}.wait': (1, 'during'), f'{SR}.wait': (1, 'during')},
+                           f'{PE}.cancel', f'{PE}.stop', f'{PE}._start_processes', f'{PE}.submit', f'{PE}.wait', 'labtech.runners.base:run_or_load_task'],
+                interrupts={f'{TC}.run': 2, f'{PR}.wait': (1, 'during'), f'{SR}.wait': (1, 'during'),
+                            f'{PE}._start_processes': 1, f'{PE}.submit': 1, f'{PE}.cancel': 1, f'{PE}.stop': 1, f'{PE}.wait': 1,
+                            'labtech.runners.base:run_or_load_task': 1},
                 lemmas=[], replay='replay.c14',
                 assumptions=['PRECONDITION: continue_on_failure=True, or no task fails after the interrupt (with continue_on_failure=False a failure during the drain raises LabError, which is C10\'s behaviour)',
                              'interrupt instants covered (scope S1): every statement boundary of TaskCoordinator.run with process_completed_tasks inlined (first and second interrupt), including each point at which the wait() generator is suspended at a yield; callee bodies are atomic',
